@@ -297,7 +297,10 @@ func (w *wnWorld) exec0(phase int, o gosim.Op) {
 		if f == nil || !f.hasRef || len(f.chunks) == 0 {
 			return
 		}
-		addr := boson.MustParseHexAddress(f.chunks[int(o.Arg(2))%len(f.chunks)])
+		addr := boson.MustParseHexAddress(f.chunks[int(o.Arg(2)&0xffff)%len(f.chunks)])
+		if o.Arg(2) < 0 {
+			addr = f.ref // the file's root chunk
+		}
 		_, err := w.n0.LS.Get(nkRootCtx(f.ref), storage.ModeGetRequest, addr)
 		r.Logf("get f=%d chunk=%s err=%v", f.id, addr.String()[:8], err)
 	case "nsget":
@@ -495,7 +498,11 @@ func wnGen(prop string) func(rng *rand.Rand, tier string) *gosim.Plan {
 					}
 					switch rng.Intn(5) {
 					case 0:
-						p.Ops = append(p.Ops, gosim.Op{K: "get", A: []int64{1, f, int64(rng.Intn(8))}})
+						k := int64(rng.Intn(8))
+						if rng.Intn(2) == 0 {
+							k = -1 // the root chunk: marks the whole file as in use
+						}
+						p.Ops = append(p.Ops, gosim.Op{K: "get", A: []int64{1, f, k}})
 					case 1:
 						p.Ops = append(p.Ops, gosim.Op{K: "nsget", A: []int64{1, f, int64(rng.Intn(8)), 1}})
 					case 2:
@@ -507,6 +514,11 @@ func wnGen(prop string) func(rng *rand.Rand, tier string) *gosim.Plan {
 					}
 				}
 				p.Ops = append(p.Ops, gosim.Op{K: "barrier"})
+				if prop == "C16" && rng.Intn(2) == 0 {
+					// ... and then another file goes: whatever the collection left
+					// inconsistent about shared chunks shows now
+					p.Ops = append(p.Ops, gosim.Op{K: "delete", A: []int64{0, int64(rng.Intn(nfiles))}}, gosim.Op{K: "barrier"})
+				}
 				continue
 			}
 			nops := 1 + rng.Intn(4)
@@ -729,7 +741,7 @@ func wnFmtGC(d *nkDump) string {
 // uploaded/pinned since" is kept apart from every other way to lose a chunk.
 func (w *wnWorld) liveUploadedChunks() (map[string]int64, map[string]string) {
 	out := map[string]int64{}
-	cachedToo := map[string]string{}
+	tag := map[string]string{}
 	files := w.sortedFiles()
 	for _, f := range files {
 		if f.local && !f.deleted && !f.uncertain {
@@ -738,21 +750,40 @@ func (w *wnWorld) liveUploadedChunks() (map[string]int64, map[string]string) {
 			}
 		}
 	}
+	// The known defect family: a file that is collectable (it was downloaded, or
+	// it was unpinned) is evicted as a whole, together with those of its chunks
+	// that no OTHER registered file contains. A chunk that is also owned by a live
+	// upload or pinned file which itself never was collectable is shared in the
+	// node's reference counting, and its loss is NOT that family.
+	collectable := map[string]string{}
 	for _, f := range files {
 		if f.everUnpinned {
 			for _, c := range f.chunks {
-				cachedToo[c] = "@chunk-of-unpinned-file"
+				collectable[c] = "@chunk-of-unpinned-file"
 			}
 		}
 	}
 	for _, f := range files {
 		if f.everCached || f.uncertain {
 			for _, c := range f.chunks {
-				cachedToo[c] = "@chunk-of-cached-file"
+				collectable[c] = "@chunk-of-cached-file"
 			}
 		}
 	}
-	return out, cachedToo
+	protected := map[string]bool{}
+	for _, f := range files {
+		if (f.local || f.pinned) && !f.deleted && !f.uncertain && !f.everCached && !f.everUnpinned {
+			for _, c := range f.chunks {
+				protected[c] = true
+			}
+		}
+	}
+	for c, t := range collectable {
+		if !protected[c] {
+			tag[c] = t
+		}
+	}
+	return out, tag
 }
 
 // wnTag keeps the two known ways a file becomes collectable (it was downloaded,
